@@ -16,7 +16,7 @@ theorem diffFile_ok {fs : FS} {old new : VInfo} {path : Str} {pats : List CPat}
   split at h
   · cases h
   · rename_i content hc
-    refine ⟨content, rfl, ?_⟩
+    refine ⟨content, hc, ?_⟩
     simp only at h
     split at h
     · cases h
@@ -113,7 +113,6 @@ theorem applyHunks_cons_some (h : Hunk) (hs : List Hunk) (pos : Nat) (old new : 
       ∃ rest, applyHunks hs (h.oldPos + h.oldLen) (old.drop ((h.oldPos - pos) + h.oldLen)) = some rest ∧
         new = old.take (h.oldPos - pos) ++ h.newSide ++ rest := by
   rw [applyHunks]
-  simp only []
   by_cases c1 : h.oldPos < pos
   · simp only [c1, if_true]
     constructor
@@ -126,7 +125,7 @@ theorem applyHunks_cons_some (h : Hunk) (hs : List Hunk) (pos : Nat) (old new : 
     · intro x; cases x
     · rintro ⟨-, a, b, -⟩
       simp [a, b] at c2
-  simp only [c2, if_false]
+  simp only [c2, Bool.false_eq_true, if_false]
   have c2' : h.oldSide.length = h.oldLen ∧ h.newSide.length = h.newLen := by
     simpa using c2
   by_cases c3 : (h.oldLen != 0 && h.oldStart == 0) = true
@@ -136,7 +135,7 @@ theorem applyHunks_cons_some (h : Hunk) (hs : List Hunk) (pos : Nat) (old new : 
     · rintro ⟨-, -, -, a, -⟩
       simp at c3
       omega
-  simp only [c3, if_false]
+  simp only [c3, Bool.false_eq_true, if_false]
   have c3' : h.oldLen = 0 ∨ h.oldStart ≠ 0 := by
     simp at c3
     omega
@@ -152,7 +151,7 @@ theorem applyHunks_cons_some (h : Hunk) (hs : List Hunk) (pos : Nat) (old new : 
     · intro x; cases x
     · rintro ⟨-, -, -, -, -, a, -⟩
       simp [a] at c5
-  simp only [c5, if_false]
+  simp only [c5, Bool.false_eq_true, if_false]
   have c5' : (old.drop (h.oldPos - pos)).take h.oldLen = h.oldSide := by simpa using c5
   cases hr : applyHunks hs (h.oldPos + h.oldLen) (old.drop (h.oldPos - pos + h.oldLen)) with
   | none =>
